@@ -381,6 +381,7 @@ type FuncSpec struct {
 	HasMod    bool
 	MakeChans []GhostMakeChan
 	Pure      bool
+	TrustResult string // reason why objinv(result) is assumed for this function
 	Trusted   bool     // contract assumed at call sites but body not verified (must be listed)
 	Inline    bool     // force inlining even though contract exists
 	Owns      []*SExpr // channels whose closedness this function owns
@@ -668,6 +669,12 @@ func (sp *Specs) readFile(path string) error {
 			cur.HasMod = true
 		case "trusted":
 			cur.Trusted = true
+		case "trust_result_objinv":
+			// the object invariant of the result is assumed, not proved, for this function (reason in rest)
+			cur.TrustResult = strings.TrimSpace(rest)
+			if cur.TrustResult == "" {
+				return fail("trust_result_objinv needs a reason")
+			}
 		case "inline":
 			cur.Inline = true
 		case "holds":
